@@ -4,7 +4,7 @@ E1 product over the six formats both APIs offer (sha256-crypt, sha512-crypt, pbk
 bcrypt-sha256).  Parts:
   interop   format x password (length / content classes of mc.hashers; bcrypt family <= 72 bytes) x non-empty salt
             (sha-crypt: every size 1..16; pbkdf2: byte salts of 1, 8, 16, 32; bcrypt: 22-character salts walking the
-            alphabet with a legal last character) x rounds (sha-crypt: the 42-round residues 1000+r and the implicit
+            alphabet with a legal last character) x rounds (sha-crypt: the costs around a 42-round block edge -- tails 0 1 2 3 40 41; thorough every tail twice -- and the implicit
             5000; pbkdf2 1..10; bcrypt cost 4, 5): the libpass-made hash verifies under passlib and under libpass, the
             passlib-made hash verifies under libpass, near-miss passwords verify nowhere, the libpass hasher identifies
             both, its update check is False for its own hash and True under another cost.
@@ -560,7 +560,9 @@ def salts_for(fmt, quick, seed):
 def rounds_for(fmt, quick):
     k = KIND[fmt]
     if k == "sha":
-        rs = (0, 1, 7, 8, 41, 42, 43, 83, 84, 85) if quick else range(86)
+        # the round loop runs blocks of 42 and then a tail of (rounds % 42) rounds as pairs + one odd round:
+        # quick = the costs around a block edge (1008 = 24 * 42: tails 0 1 2 3 / 40 41 / 0 1 again), thorough = every tail twice
+        rs = (0, 8, 9, 10, 11, 48, 49, 50, 51, 85) if quick else range(86)
         return [1000 + r for r in rs] + [5000]
     if k == "pbkdf2":
         return [2, 1, 3, 4, 5, 6, 7, 8, 9, 10]
